@@ -1,4 +1,4 @@
-import DSV.Proofs.Fs
+import DSV.Proofs.FsCrash
 /-!
 C03 — a crash at any point leaves the table in the pre- or post-operation state.
 Process death = any prefix of the operation's syscall trace (page cache intact).  Model: `DSV/Model/Fs.lean`.
